@@ -84,6 +84,20 @@ func genFuncFacts(repo, out string, ps []*packages.Package) {
 			[][2]string{{"store", "store.go"}, {"store", "segment.go"}, {"store", "stream.go"}, {"store", "executionplan.go"}, {"store", "helper.go"}, {"store", "cursor.go"}}, all},
 		{"SymbolFuncs", "pkg/symbol/table.go, symbol.go, loadhook.go, unloadhook.go, pkg/hook/hook.go (C06, C07, C08)",
 			[][2]string{{"symbol", "table.go"}, {"symbol", "symbol.go"}, {"symbol", "loadhook.go"}, {"symbol", "unloadhook.go"}, {"hook", "hook.go"}}, all},
+		// the small files UNDER the anchored ones (hooks, listeners, port naming, proxies, clusters, codecs): no property
+		// is anchored in them, every flow runs through them – one module per property whose model leans on them most
+		{"C01LayerFuncs", "pkg/packet/hook.go (hooks of readers and writers: C01; C02, C05, C19)",
+			[][2]string{{"packet", "hook.go"}}, all},
+		{"C02LayerFuncs", "pkg/node/node.go, port.go (derive, port naming: C02; C03, C05)",
+			[][2]string{{"node", "node.go"}, {"node", "port.go"}}, all},
+		{"C05LayerFuncs", "pkg/port/openhook.go, closehook.go, listener.go, pkg/process/storehook.go (C05; C02, C03, C06, C08, C19)",
+			[][2]string{{"port", "openhook.go"}, {"port", "closehook.go"}, {"port", "listener.go"}, {"process", "storehook.go"}}, all},
+		{"C08LayerFuncs", "pkg/node/proxy.go, pkg/symbol/cluster.go (unwrap chains of the listener hooks, nested tables: C08; C06, C07)",
+			[][2]string{{"node", "proxy.go"}, {"symbol", "cluster.go"}}, all},
+		{"C09LayerFuncs", "pkg/scheme/codec.go, builder.go, register.go, pkg/store/source.go (C09; C16, C10)",
+			[][2]string{{"scheme", "codec.go"}, {"scheme", "builder.go"}, {"scheme", "register.go"}, {"store", "source.go"}}, all},
+		{"C19LayerFuncs", "pkg/runtime/watcher.go, frame.go (C19)",
+			[][2]string{{"runtime", "watcher.go"}, {"runtime", "frame.go"}}, all},
 	}
 	for _, g := range groups {
 		var b strings.Builder
